@@ -370,7 +370,18 @@ def check(model, rep, tier):
         len(c_.args) == 3 and core.norm(c_.args[0]) == vp_ and \
         core.norm(c_.args[1]) == 'anno.Static.LIVE_VARS_IN':
       # the live-in of the statement's own CFG node (through locals)
-      v_ = tpl.xnorm(vis, c_.args[2], c_)
+      wal_ = {}
+      for w_ in ast.walk(vis.node):
+        if isinstance(w_, ast.NamedExpr):
+          wal_.setdefault(w_.target.id, []).append(w_.value)
+
+      class _W1(ast.NodeTransformer):
+        def visit_Name(self, n_):
+          if n_.id in wal_ and len(wal_[n_.id]) == 1 and isinstance(n_.ctx, ast.Load):
+            return tpl.expand(vis, wal_[n_.id][0], wal_[n_.id][0])
+          return n_
+      import copy as _copy
+      v_ = core.norm(_W1().visit(_copy.deepcopy(tpl.expand(vis, c_.args[2], c_))))
       ok = ok or v_ in (
           'frozenset(self.current_analyzer.in_[self.current_analyzer.graph.index[%s]])' % vp_,
           'self.current_analyzer.in_[self.current_analyzer.graph.index[%s]]' % vp_,
